@@ -3,7 +3,7 @@
    The model is Html/Model.v (all of /repo/html/lex.go and ToHash over the generated table); [run c n l] is a
    caller that calls Next n times whatever it returns; [cfg_ok c] says the two template delimiters contain no
    NUL byte (c = no_tmpl: NewLexer; the six predefined pairs satisfy it, cfg_ok_predefined). *)
-From Verif Require Import Common.Base Common.Lx Gen.Tables Html.Model Html.ListLemmas Html.Safety Html.Step Html.Spec Html.RawText Html.Proofs Html.EndTag.
+From Verif Require Import Common.Base Common.Lx Gen.Tables Html.Model Html.ListLemmas Html.Safety Html.Step Html.Spec Html.RawText Html.Proofs Html.Template Html.Wf Html.WfDoc Html.EndTag Html.Script.
 
 (* C01 — no panic, no endless loop: n calls of Next succeed on every byte string, with or without template
    delimiters, whatever the caller does after an error. *)
@@ -87,6 +87,87 @@ Theorem html_rawtext_never_markup :
 Proof. exact html_rawtext_proof. Qed.
 Print Assumptions html_rawtext_never_markup.
 
+(* C09 — script, double escape (full, no template delimiters): the content of a script element is ONE Text token that
+   ends exactly where the rules designate.  Script.script_len reads the remaining input as script data: a
+   "</script" followed by whitespace, '/', '>' or the end of input ends the content; "<!--" opens a section
+   (Script.esc_end) that "-->" closes; inside it "<script" + tag end sets the double-escape flag, and "</script" + tag
+   end clears the flag if it is set and otherwise ends the content; other "<", "</" + letters are skipped; the end of
+   input ends the content.  (e = cursor: the content is empty.) *)
+Theorem html_script_double_escape :
+  forall d l ty tk l', html_inv d l -> intag l = false -> rawtag l = html_hash_Script ->
+    next no_tmpl l = Ok (ty, tk, l') ->
+    let e := lpos (lz l) + script_len (skipz (lpos (lz l)) d) in
+    lpos (lz l) <= e <= len d /\
+    (lpos (lz l) < e ->
+       ty = TextT /\ tk = Some (mkSl (lpos (lz l)) (e - lpos (lz l))) /\ ltext l' = tk /\
+       rawtag l' = 0 /\ intag l' = false /\ lpos (lz l') = e).
+Proof. exact html_script_end_proof. Qed.
+Print Assumptions html_script_double_escape.
+
+(* C09 — raw text, exact end (full, no template delimiters): for every raw-text element other than plaintext the content
+   is ONE Text token that ends exactly at cursor + Script.raw_len: the first "</name" + tag end (script: outside
+   "<!--" sections, as in html_script_double_escape), or the end of input. *)
+Theorem html_rawtext_end_exact :
+  forall d l ty tk l', html_inv d l -> intag l = false -> rawtag l <> 0 -> rawtag l <> html_hash_Plaintext ->
+    next no_tmpl l = Ok (ty, tk, l') ->
+    let e := lpos (lz l) + raw_len (rawtag l) (skipz (lpos (lz l)) d) in
+    lpos (lz l) <= e <= len d /\
+    (lpos (lz l) < e ->
+       ty = TextT /\ tk = Some (mkSl (lpos (lz l)) (e - lpos (lz l))) /\ ltext l' = tk /\
+       rawtag l' = 0 /\ intag l' = false /\ lpos (lz l') = e).
+Proof. exact html_raw_end_proof. Qed.
+Print Assumptions html_rawtext_end_exact.
+
+(* C09 — templates, text: a delimited region [p,q) that starts where the lexer is in text is returned as exactly
+   one Template token, HasTemplate() = true (is_region: q is the end of the first closing delimiter outside quoted
+   strings, or the end of input). *)
+Theorem html_template_atomic :
+  forall c d l p q, cfg_ok c -> html_inv d l -> intag l = false -> rawtag l = 0 ->
+    p = lpos (lz l) -> is_region c d p q ->
+    exists l', next c l = Ok (TemplateT, Some (mkSl p (q - p)), l') /\ lhas l' = true /\ lpos (lz l') = q.
+Proof. exact html_template_token_proof. Qed.
+Print Assumptions html_template_atomic.
+
+(* C09 — templates, text (converse): an ordinary Text token contains no opening delimiter and reports none. *)
+Theorem html_template_text_clean :
+  forall c d l v l', cfg_ok c -> tb c <> [] -> html_inv d l -> intag l = false -> rawtag l = 0 ->
+    next c l = Ok (TextT, Some v, l') -> ltext l' = Some v ->
+    lhas l' = false /\ forall p, so v <= p < so v + sn v -> prefixb (tb c) (skipz p d) = false.
+Proof. exact html_text_no_template_proof. Qed.
+Print Assumptions html_template_text_clean.
+
+(* C09 — well-formed documents (partial): for every document assembled from the constructs of the grammar
+   WfDoc.item (text without '<'; comments; CDATA; doctype in any ASCII case; start tags of ordinary elements with
+   valueless / unquoted / single- / double-quoted attributes and any permitted whitespace, closed by '>' or '/>';
+   end tags with any HTML whitespace before '>'; the raw-text elements style, title, textarea, xmp, iframe, script in any ASCII case with
+   attributes, non-empty content that contains no "</" (script: also no "<!--", or content with "<!--" sections for
+   which the double-escape rules designate the element's end tag: WfDoc.script_content), and their end tag; plaintext with
+   everything after its tag (last item); bogus comments "<?…>", "<!…>" (not starting with "--", "[CDATA[" or "doctype" in any ASCII case)
+   and "</" + non-letter "…>"; svg / math / xml subtrees whose inside is accepted by Wf.xml_wf: read as tags and
+   character data, quotes count only inside tags (attribute values may contain '>', "</svg>" and the other quote),
+   character data may contain quotes, nested tags and end tags of other elements; comments "<!--…-->", CDATA
+   sections "<![CDATA[…]]>" and processing instructions "<?…?>" are skipped whatever they contain (quotes, '<',
+   the element's own end tag; after fix f26ca9a); no NUL, and no end tag of the element itself in character data)
+   the lexer, without template delimiters, returns exactly one token per construct
+   (one per tag part; raw content as ONE Text token; an svg/math subtree as ONE SVG/Math token), with the right
+   type, the bytes of the construct, lower-cased Text()/AttrKey() and verbatim AttrVal(), followed by the
+   end-of-input report.  [observe] reads type, token bytes, Text() and (for attributes) AttrVal() after each call.
+   Constructs cut by the end of input (only as the last item; WfDoc.ITextLt and the ICut items): text ending with "<" or "</"
+   (the '<' belongs to the text); "<!--" body, "<![CDATA[" body, "<!doctype" after: one Comment / Text / Doctype token
+   to the end; "<?" / "<!" / "</"+non-letter body: one bogus Comment; "</" name ws: one EndTag; "<" name attributes:
+   StartTag and the Attribute tokens; a raw-text element (script with its double-escape rules) whose content has no
+   end tag (Script.raw_len = length): the tag tokens and ONE Text to the end.  In each case the end-of-input report follows.
+   NOT covered by this theorem (correspondence + Go oracle only): cuts inside an svg / math / xml element, inside a
+   quoted attribute value and inside the whitespace at the end of a tag; raw content that is empty (html_rawtext_end_exact
+   says where raw content ends in general); text containing a '<' that opens nothing (other than at the end of input);
+   names containing '/'; templates. *)
+Theorem html_wellformed_tokens_partial :
+  forall items, wf_doc items ->
+    exists tr, run no_tmpl (length (doc_obs items) + 1) (new_lexer (doc_bytes items)) = Ok tr /\
+               map observe tr = doc_obs items ++ [mkObs ErrorT [] [] []].
+Proof. exact html_wellformed_tokens_proof. Qed.
+Print Assumptions html_wellformed_tokens_partial.
+
 (* C02 / C09 — end tags are faithful (full clause, after fixes 980d021 and 7de66fe): for every end-tag token before
    the first error, with nr = the length of its name (the bytes after "</" up to the first whitespace, '>' or '/'),
    the token bytes are the input bytes with exactly the NAME lower-cased — every other byte is returned as it was —;
@@ -96,3 +177,37 @@ Theorem html_endtag_faithful :
   forall c d n tr, cfg_ok c -> run c n (new_lexer d) = Ok tr -> Forall (endtag_faithful d) (until_error tr).
 Proof. exact html_endtag_faithful_proof. Qed.
 Print Assumptions html_endtag_faithful.
+
+(* C09 — templates, every context (witnesses; the general theorems for attributes, raw text and the other contexts are
+   being re-proved over the model of /repo 886e7b1 in Html/TemplateMore.v.wip): the former findings' inputs now give
+   ONE token that contains the whole region, HasTemplate() = true: <!-- {{x}} -->, <!-- {{ "-->" }} -->a,
+   <!doctype {{">"}}>, </a{{x}}>, <svg>{{"</svg>"}}</svg>, <math>{{x}}</math>. *)
+Theorem html_template_elsewhere_fixed_witnesses :
+  region_inside go_tmpl CommentT [60;33;45;45;32;123;123;120;125;125;32;45;45;62] 5 10 /\
+  region_inside go_tmpl CommentT [60;33;45;45;32;123;123;32;34;45;45;62;34;32;125;125;32;45;45;62;97] 5 16 /\
+  region_inside go_tmpl DoctypeT [60;33;100;111;99;116;121;112;101;32;123;123;34;62;34;125;125;62] 10 17 /\
+  region_inside go_tmpl EndTagT [60;47;97;123;123;120;125;125;62] 3 8 /\
+  region_inside go_tmpl SvgT [60;115;118;103;62;123;123;34;60;47;115;118;103;62;34;125;125;60;47;115;118;103;62] 5 17 /\
+  region_inside go_tmpl MathT [60;109;97;116;104;62;123;123;120;125;125;60;47;109;97;116;104;62] 6 11.
+Proof. exact html_template_elsewhere_fixed. Qed.
+Print Assumptions html_template_elsewhere_fixed_witnesses.
+
+(* C09 — templates, attribute position (partial): a region that follows a tag name or an attribute (directly or after
+   whitespace) starts an Attribute token that contains the whole region, HasTemplate() = true. *)
+Theorem html_template_atomic_attr_partial :
+  forall c d l p q, cfg_ok c -> tb_plain c -> html_inv d l -> intag l = true ->
+    lstart (lz l) = lpos (lz l) -> lpos (lz l) <= p ->
+    (forall i, lpos (lz l) <= i < p -> is_ws (getz d i) = true) -> is_region c d p q ->
+    exists v l', next c l = Ok (AttributeT, Some v, l') /\ lhas l' = true /\ so v = lpos (lz l) /\ q <= so v + sn v.
+Proof. exact html_template_attr_proof. Qed.
+Print Assumptions html_template_atomic_attr_partial.
+
+(* C09 — templates, raw text (partial): a region at the start of the content of a raw-text element lies inside the Text
+   token, HasTemplate() = true. *)
+Theorem html_template_atomic_rawtext_partial :
+  forall c d l p q, cfg_ok c -> html_inv d l -> intag l = false ->
+    rawtag l <> 0 -> rawtag l <> html_hash_Plaintext -> (exists x t, tb c = x :: t /\ x <> 60) ->
+    p = lpos (lz l) -> is_region c d p q ->
+    exists v l', next c l = Ok (TextT, Some v, l') /\ lhas l' = true /\ so v = p /\ q <= so v + sn v.
+Proof. exact html_template_rawtext_proof. Qed.
+Print Assumptions html_template_atomic_rawtext_partial.
